@@ -81,7 +81,14 @@ PLACE: Dict[str, Tuple[str, ...]] = {
     'class-try': ('class K:\n    try:\n', '        ', '    finally:\n        pass\n'),
     'func': ('def outer():\n', '    '),
     'main': ('if __name__ == "__main__":\n', '    '),
+    'main-reversed': ('if "__main__" == __name__:\n', '    '),
+    # taken on import: the opposite of a __main__ block
+    'not-main': ('if __name__ != "__main__":\n', '    '),
+    'else-of-false': ('if False:\n    pass\nelif True:\n', '    '),
+    'while-once': ('_n = 0\nwhile _n < 1:\n    _n += 1\n', '    '),
 }
+NEGATIVE = ('func', 'main', 'main-reversed')
+UNJUDGED = ('else-of-false', 'while-once')
 CLASS_ONLY = ('static', 'clsm', 'prop', 'oldstatic', 'oldclsm', 'async_static')
 
 LITERALS = ['1', '-1', '1.5', '1j', "'s'", "b'b'", 'True', 'None', '[]', '[1, 2]', "['a', 'b']", "[1, 'a']", '[[1], [2]]', '()', '(1, 2)', "(1, 'a')", '(1,)',
@@ -119,12 +126,14 @@ def locate(pm: Any, m: Any, pl: str) -> Tuple[Any, Any]:
 def compare_name(pl: str, pns: Any, dns: Any, name: str, label: str, full: str, docexp: Optional[str], res: Dict[str, Any], extra_sig: str = '') -> None:
     from pydoctor import model
     case = {'kind': 'src', 'src': full, 'place': pl, 'names': [name]}
-    pk = pykind(pns, name) if pl not in ('func', 'main') else None
+    pk = pykind(pns, name) if pl not in NEGATIVE and pl not in UNJUDGED else None
+    if pl in UNJUDGED:
+        return      # bodies the agreed subset does not cover: neither demanded nor forbidden
     dobj = dns.contents.get(name)
     dups = [k for k in dns.contents if k == name]
     if pk is None:
         if dobj is not None:
-            res['violations'].append(core.violation(f'invented/{pl}/{label}{extra_sig}', f'pydoctor documents {name} in a namespace where CPython binds nothing:\n{full}', case))
+            res['violations'].append(core.violation(f'invented/{pl}' + ('' if pl in NEGATIVE else f'/{label}{extra_sig}'), f'pydoctor documents {name} in a namespace where CPython binds nothing:\n{full}', case))
         return
     if dobj is None:
         res['violations'].append(core.violation(f'missing/{pl}/{label}{extra_sig}', f'CPython binds {name} ({pk[0]}) but pydoctor documents nothing:\n{full}', case))
@@ -179,7 +188,7 @@ def run_sources(items: Sequence[Tuple[str, str, List[Tuple[str, str, Optional[st
         for name, label, docexp in names:
             compare_name(pl, pns, dns, name, label, full, docexp, res, sfx)
         # nothing invented: every documented name of the namespace is bound by CPython (negative placements: nothing planted)
-        if pl not in ('func', 'main'):
+        if pl not in NEGATIVE and pl not in UNJUDGED:
             for k in dns.contents:
                 if k not in vars(pns) and not k.startswith('_'):
                     res['violations'].append(core.violation(f'invented-extra/{pl}', f'pydoctor documents {k}, CPython does not bind it:\n{full}', {'kind': 'src', 'src': full, 'place': pl, 'names': [k]}))
@@ -243,9 +252,13 @@ def pairs(places: Sequence[str], layouts: Sequence[str]) -> List[Tuple[str, str,
     return out
 
 
-def check_literal(lit: str, pl: str, res: Dict[str, Any]) -> None:
+def check_literal(lit: str, pl: str, res: Dict[str, Any], rebind: Optional[str] = None, how: str = '') -> None:
     ind = PLACE[pl][1]
-    full = wrap(pl, f'{ind}X = {lit}\n')
+    body = f'{ind}X = {lit}\n'
+    if rebind is not None:
+        # the same name is bound again, to a literal of another type: the type shown must be the type of the FINAL value
+        body += {'plain': f'{ind}X = {rebind}\n', 'if': f'{ind}if True:\n{ind}    X = {rebind}\n', 'try': f'{ind}try:\n{ind}    X = {rebind}\n{ind}finally:\n{ind}    pass\n'}[how]
+    full = wrap(pl, body)
     with pd.scratch('c03l') as d:
         pd.write_tree(d, {'m.py': full})
         s = pd.build_files(d, ['m.py'])
@@ -255,7 +268,7 @@ def check_literal(lit: str, pl: str, res: Dict[str, Any]) -> None:
     res['evals'] += 1
     res['nontrivial'].add(core.h(full))
     dobj = dns.contents.get('X')
-    case = {'kind': 'literal', 'lit': lit, 'place': pl}
+    case = {'kind': 'literal', 'lit': lit, 'place': pl, 'rebind': rebind, 'how': how}
     if dobj is None:
         res['violations'].append(core.violation(f'missing/{pl}/literal', f'X = {lit} not documented', case))
         return
@@ -362,6 +375,10 @@ def run_job(job: Any, tier: str) -> Dict[str, Any]:
             except SyntaxError:
                 continue
             check_literal(lit, job[1], res)
+        REB = ['1', '1.5', "'s'", '[1]', "['a']", '(1, 2)', '{}', 'None', 'True']
+        for l1, l2 in itertools.permutations(REB, 2):
+            for how in ('plain', 'if', 'try'):
+                check_literal(l1, job[1], res, l2, how)
     elif job[0] == 'package':
         check_package(job[1], res)
     return res
@@ -374,5 +391,5 @@ def replay(case: Dict[str, Any]) -> List[Dict[str, Any]]:
         names = [(n, 'replay', None) for n in case['names']]
         run_sources([(case['place'], case['src'], names, '')], res)
     elif case['kind'] == 'literal':
-        check_literal(case['lit'], case['place'], res)
+        check_literal(case['lit'], case['place'], res, case.get('rebind'), case.get('how') or '')
     return res['violations']
